@@ -106,6 +106,12 @@ type recStore struct {
 	parkAppender bool
 	// knownSeries: GetRef reports every series as already known (non-zero reference).
 	knownSeries bool
+	// parkCommit: a write parks at the simulator inside Commit(), identified by tenant and series.
+	parkCommit bool
+	// parkTenant restricts parkCommit to one tenant ("" = every tenant). Multi-tenant batches are
+	// written tenant by tenant in Go map order; parking only the commits of one fixed tenant keeps
+	// the set of parked operations independent of that order.
+	parkTenant string
 
 	commits     []commitRec
 	inflight    int
@@ -151,12 +157,13 @@ func (a *recAppendable) Appender(ctx context.Context) (storage.Appender, error) 
 		}
 		return nil, tsdb.ErrNotReady
 	}
-	return &recAppender{st: st, tenant: a.tenant, counted: park, byLabels: map[string]*recSeries{}}, nil
+	return &recAppender{st: st, tenant: a.tenant, ctx: ctx, counted: park, byLabels: map[string]*recSeries{}}, nil
 }
 
 type recAppender struct {
 	st       *recStore
 	tenant   string
+	ctx      context.Context
 	counted  bool
 	series   []*recSeries
 	byLabels map[string]*recSeries
@@ -262,6 +269,19 @@ func (a *recAppender) done() {
 
 func (a *recAppender) Commit() error {
 	defer a.done()
+	a.st.mu.Lock()
+	pc := a.st.parkCommit && (a.st.parkTenant == "" || a.st.parkTenant == a.tenant)
+	a.st.mu.Unlock()
+	if pc {
+		var names []string
+		for _, r := range a.series {
+			names = append(names, r.Name)
+		}
+		sort.Strings(names)
+		if err := a.st.c.s.Park(a.ctx, a.st.c.s.OpID(a.st.node, "tsdb-commit", a.tenant, strings.Join(names, " "))); err != nil {
+			return errors.Wrap(err, "simulated: write abandoned")
+		}
+	}
 	worst := oOK
 	for _, r := range a.series {
 		if o := a.outcomeFor(r.Name); o == oUnavailable || (o == oOther && worst != oUnavailable) {
@@ -415,7 +435,7 @@ func endpointOf(i int) receive.Endpoint {
 func newCluster(s *simkit.Sim, x *simkit.Exec, cfg clusterCfg) (*cluster, error) {
 	c := &cluster{s: s, x: x, cfg: cfg}
 	if cfg.workers == 0 {
-		cfg.workers = 64
+		cfg.workers = 16
 	}
 	var eps []receive.Endpoint
 	for i := 0; i < cfg.nodes; i++ {
@@ -481,7 +501,17 @@ func newCluster(s *simkit.Sim, x *simkit.Exec, cfg clusterCfg) (*cluster, error)
 	return c, nil
 }
 
+// close lets every straggler finish (forward requests that wait for their deadline, optimistic
+// late writes), then stops the handlers. Must be called from the bubble's root goroutine after Loop.
 func (c *cluster) close() {
+	for i := 0; i < 3; i++ {
+		time.Sleep(2 * forwardTimeout) // simulated time
+		c.s.Settle()
+		if len(c.s.ParkedIDs()) == 0 {
+			break
+		}
+		c.s.Loop()
+	}
 	for _, n := range c.nodes {
 		n.handler.Close()
 	}
